@@ -520,6 +520,36 @@ def lift_block(blk, log, meta, canary=False):
             ed.insert(sig[j].end, ', '.join(blk.add_params) + sep, 'R6')
             log.append(f'R6 {src.rel}:{src.line_of(sig[j].start)} parameter(s) added: ' + ', '.join(blk.add_params))
         lo, hi = fi.open_idx + 1, fi.close_idx
+    elif kind == 'let':
+        # the initializer expression of the nth `let NAME = EXPR;` anywhere in the function, lifted as the body of a new fn
+        want, nth, cnt = a['name'], int(a.get('let_nth', 0)), 0
+        lo = hi = None
+        for i in range(fi.open_idx + 1, fi.close_idx):
+            t = sig[i]
+            if t.kind == 'id' and t.text == 'let':
+                j = i + 1
+                if sig[j].text == 'mut':
+                    j += 1
+                if sig[j].text == want and sig[j + 1].text in ('=', ':'):
+                    if cnt == nth:
+                        k = j + 1
+                        while sig[k].text != '=':
+                            k += 1
+                        e = k + 1
+                        while not (sig[e].kind == 'p' and sig[e].text == ';'):
+                            if sig[e].kind == 'p' and sig[e].text in '([{':
+                                e = sig[e].mate
+                            e += 1
+                        lo, hi = k + 1, e
+                        break
+                    cnt += 1
+        if lo is None:
+            raise LiftError(f"{src.rel}: `let {want}` #{nth} not found in fn `{a['fn']}`")
+        ed = Edits(src, sig[lo].start, sig[hi - 1].end)
+        loops = [l for l in loops if lo <= l.kw_idx < hi]
+        header = blk.rest
+        header = re.sub(r'\bfn\s+(\w+)', lambda m: 'fn ' + (m.group(1) + ('__canary' if canary else '')), header, count=1)
+        log.append(f"R5 {src.rel}:{src.line_of(sig[lo].start)}-{src.line_of(sig[hi - 1].end)} initializer of `let {want}` in fn `{a['fn']}` lifted as `{header.strip()}`")
     elif kind in ('tail', 'loop'):
         if kind == 'tail':
             # statement `let [mut] V ... ;` at depth 1 of the body
@@ -638,10 +668,10 @@ def assemble(template_path, canary=False, extra_shims=None, havoc_decls=None):
             segs.append(Seg(f'}}\n#[allow(unused_imports)] pub use {modname}::*;\n', tag='include'))
             meta['includes'].append('spec/' + val)
         else:
-            if extra_shims and val.kind in ('item', 'tail', 'loop') :
+            if extra_shims and val.kind in ('item', 'tail', 'loop', 'let'):
                 for k, v in extra_shims.items():
                     val.shim_methods.setdefault(k, v)
-            if canary and val.kind in ('item', 'tail', 'loop') and val.args.get('canary', '1') != '0':
+            if canary and val.kind in ('item', 'tail', 'loop', 'let') and val.args.get('canary', '1') != '0':
                 segs.extend(lift_block(val, log, meta, canary=False))
                 dummy = {'functions': [], 'includes': []}
                 segs.extend(lift_block(val, [], dummy, canary=True))
